@@ -242,6 +242,12 @@ def run(ctx):
             try:
                 out, mods = cls().genImports(dd)
                 impl = {'modules': list(mods)}
+                # every module the text names in IMPORTS stays in the list compile() follows, also when all its symbols found
+                # another home: its source is still looked up, and reported when it is missing or broken
+                lost = [m for m in d if m not in mods]
+                if lost and gen_name == 'symtable':
+                    res.oracle_failures.append({'key': 'import-module-lost', 'what': 'modules %s are named in IMPORTS but are not among the imported modules %s the compiler follows' % (
+                        lost, list(mods)), 'input': {'imports': d, 'expect_followed': lost}})
                 if gen_name == 'intermediate':
                     impl['emitted'] = [[k, list(v)] for k, v in out['imports'].items() if k != 'class']
                 # a second pass over the same (mutated) dict, as compile() does with the second generator
@@ -298,6 +304,11 @@ def replay(payload):
         if 'expect_kept' in inp:
             m, s = inp['expect_kept']
             return {'fails': s not in em.get(m, [])}
+        if 'expect_followed' in inp:
+            import copy as _copy
+            from pysmi.codegen.symtable import SymtableCodeGen as _S
+            _, mods = _S().genImports(_copy.deepcopy(inp['imports']))
+            return {'fails': any(m not in mods for m in inp['expect_followed']), 'what': list(mods)}
         if 'expect_home' in inp:
             return {'fails': any(list(em.get(m, [])) != v for m, v in inp['expect_home'].items()) or any(m in em for m in inp['imports'])}
         for m, syms in inp['imports'].items():
